@@ -31,6 +31,7 @@ type c19Case struct {
 	sheet     string
 	refer     bool     // a column of the sheet refers to a column of another workbook's sheet
 	referBook bookSpec // the referred workbook
+	cleanBook bookSpec // corrupt cases: the workbook before the one cell was spoilt
 }
 
 func genC19Case(r *rand.Rand, uniq string) c19Case {
@@ -97,6 +98,13 @@ func genC19Case(r *rand.Rand, uniq string) c19Case {
 	c.book = bookSpec{Name: "Fuzz" + uniq, Sheets: []sheetSpec{gs.spec}}
 	if r.Intn(6) == 0 {
 		c.corrupt = true
+		// the sheet as generated, before the one cell is spoilt
+		clean := gs.spec
+		clean.Rows = make([][]string, len(gs.spec.Rows))
+		for i, row := range gs.spec.Rows {
+			clean.Rows[i] = append([]string{}, row...)
+		}
+		c.cleanBook = bookSpec{Name: "Fuzz" + uniq, Sheets: []sheetSpec{clean}}
 		rows := c.book.Sheets[0].Rows
 		if len(rows) > 3 {
 			k := 3 + r.Intn(len(rows)-3)
@@ -118,6 +126,32 @@ func errCore(err error) string {
 		return v
 	}
 	return "err " + d.ErrCode() + "|" + get(xerrors.KeySheetName) + "|" + get(xerrors.KeyDataCellPos) + "|" + get(xerrors.KeyDataCell) + "|" + get(xerrors.KeyColumnName)
+}
+
+// c19CleanConverts: the workbook without the spoilt cell (same mergers, refer book) passes GenProto + GenConf
+func c19CleanConverts(c c19Case) bool {
+	w := newWorkspace()
+	defer w.cleanup()
+	write := func(b bookSpec) {
+		if c.container == "xlsx" {
+			w.writeXLSXBook("", b, false)
+		} else {
+			w.writeCSVBook("", b)
+		}
+	}
+	ro := runOpts{LocationName: c.location, Package: "pc" + strings.TrimPrefix(c.sheet, "HeroConf")}
+	if c.container == "xlsx" {
+		ro.Formats = []format.Format{format.Excel}
+	}
+	write(baseBook())
+	write(c.cleanBook)
+	for _, m := range c.mergers {
+		write(m)
+	}
+	if c.refer {
+		write(c.referBook)
+	}
+	return w.genProto(ro) == nil && w.genConf(ro) == nil
 }
 
 func runC19(c c19Case) string {
@@ -198,7 +232,13 @@ func runC19(c c19Case) string {
 			return "differ error-parity conf=" + errCore(confErr) + " origin=" + errCore(originErr)
 		}
 		if errCore(confErr) != errCore(originErr) {
-			return "differ error-desc conf=" + errCore(confErr) + " origin=" + errCore(originErr)
+			// "the same errors for the same bad cells": decided when the spoilt cell is the input's only bad cell,
+			// i.e. the workbook converts without it. Several bad cells (generated merger rows may carry their own,
+			// e.g. two blank map keys) are reported first-come by each path: which one comes first is not stated.
+			if c.corrupt && c19CleanConverts(c) {
+				return "differ error-desc conf=" + errCore(confErr) + " origin=" + errCore(originErr)
+			}
+			return "same err-several"
 		}
 		return "same err"
 	}
